@@ -1,6 +1,6 @@
 (* C13_drv.v — filters without a per-sample entry point, through their public drivers on a two-row record whose second
    row is the dropout: FKF (fix C13-fkf-dropout) and Complementary (fix C13-complementary-dropout). *)
-From Coq Require Import Reals List Lra Psatz.
+From Coq Require Import Reals List Lra Psatz Nsatz.
 From AhrsLib Require Import Base.
 From AhrsGen Require Import C13gen_R.
 From AhrsProps Require Import C13_lib.
@@ -34,17 +34,33 @@ Definition comp_leaf (e0 e1 : R) (o : outcome R) : Prop :=
   | Val _ => False
   | Raise e => e = ValueError
   end.
+(* generic over the way the source writes the sums: angles by `ring`, the norm by sin^2 + cos^2 = 1 of whatever half-angles occur *)
+Ltac trig_abstract :=
+  repeat match goal with
+  | |- context [cos ?u] =>
+      let c := fresh "c" in let s := fresh "s" in let X := fresh "X" in
+      pose proof (sin2_cos2 u) as X; unfold Rsqr in X; set (c := cos u) in *; set (s := sin u) in *
+  end.
 Lemma comp_imu_a0 r0 p0 y0 h0 h1 h2 g0 g1 g2 a0 a1 a2 :
   comp_leaf (r0 + g0 * (1/100)) (p0 + g1 * (1/100)) (C13_comp_imu_a0_R r0 p0 y0 h0 h1 h2 g0 g1 g2 a0 a1 a2).
 Proof.
   unfold C13_comp_imu_a0_R. cbv zeta.
-  destr_dec; simpl; (split; [reflexivity|]; split; [reflexivity|]; split; [reflexivity|]);
-  set (cp := cos (1 / 2 * (p0 + g1 * (1 / 100)))); set (sp := sin (1 / 2 * (p0 + g1 * (1 / 100))));
-  set (cr := cos (1 / 2 * (r0 + g0 * (1 / 100)))); set (sr := sin (1 / 2 * (r0 + g0 * (1 / 100))));
-  assert (H1 : sp * sp + cp * cp = 1) by (unfold sp, cp; pose proof (sin2_cos2 (1 / 2 * (p0 + g1 * (1 / 100)))) as H; unfold Rsqr in H; exact H);
-  assert (H2 : sr * sr + cr * cr = 1) by (unfold sr, cr; pose proof (sin2_cos2 (1 / 2 * (r0 + g0 * (1 / 100)))) as H; unfold Rsqr in H; exact H);
-  (replace (cp * cr * (cp * cr) + cp * sr * (cp * sr) + sp * cr * (sp * cr) + - (sp * sr) * - (sp * sr)) with 1
-     by (transitivity ((sp * sp + cp * cp) * (sr * sr + cr * cr)); [rewrite H1, H2; ring|ring]));
-  rewrite sqrt_1; unfold sq4; rewrite !div_one;
-  (transitivity ((sp * sp + cp * cp) * (sr * sr + cr * cr)); [ring|rewrite H1, H2; ring]).
+  destr_dec; simpl; (split; [ring|]; split; [ring|]; split; [ring|]); trig_abstract;
+  match goal with |- context [sqrt ?e] => replace e with 1 by nsatz end;
+  rewrite sqrt_1; unfold sq4; rewrite !div_one; nsatz.
+Qed.
+
+(* Complementary MARG driver, acc[1] = 0: ALL THREE angles (yaw included) are the gyro-integrated previous angles *)
+Definition comp3_leaf (e0 e1 e2 : R) (o : outcome R) : Prop :=
+  match o with
+  | Val (u0 :: u1 :: u2 :: _) => u0 = e0 /\ u1 = e1 /\ u2 = e2
+  | Val _ => False
+  | Raise e => e = ValueError
+  end.
+Lemma comp_marg_a0 r0 p0 y0 h0 h1 h2 g0 g1 g2 a0 a1 a2 n0 n1 n2 m0 m1 m2 :
+  comp3_leaf (r0 + g0 * (1/100)) (p0 + g1 * (1/100)) (y0 + g2 * (1/100))
+    (C13_comp_marg_a0_R r0 p0 y0 h0 h1 h2 g0 g1 g2 a0 a1 a2 n0 n1 n2 m0 m1 m2).
+Proof.
+  cbv beta delta [C13_comp_marg_a0_R]. walk; simpl; try reflexivity;
+  repeat split; match goal with H : ?t = _ |- ?t = _ => rewrite H; ring end.
 Qed.
